@@ -383,74 +383,42 @@ func runC14(c *Ctx) {
 				accept, msg = r, rv[0]
 			}
 		}
+		// D54: a result polled after the context ended is judged by the ordinary rule — the ctx case has no acceptance
+		// rule of its own (the D49 shape returned only NOERROR / NXDOMAIN from there and dropped the last upstream's
+		// SERVFAIL / REFUSED reply that had arrived in time)
 		for _, r := range ctxAccepts {
-			// after the context ended only a definitive answer that had already arrived is returned: the message was
-			// polled from the result channel, came without error, and every way into the return is rcode NOERROR / NXDOMAIN
-			m := returnedValues(r)[0]
-			polled, errNil := false, false
-			for _, g := range guardsOfInstr(r) {
-				if cm, ok := g.asCmp(); ok && isNilConst(cm.Y) && cm.Op == token.EQL && cm.X.Type().String() == "error" {
-					errNil = true
-				}
-			}
+			c.fail("accept-rule:after-ctx", instrPos(r), "the ctx.Done() case accepts replies by a rule of its own: a reply that arrived before the context ended is not judged like any other (the last upstream's reply must be returned whatever its rcode)")
+		}
+		if ctxBody != nil && len(ctxAccepts) == 0 {
+			feeds := false
 			eachInstr(f, func(in ssa.Instruction) {
-				if sel, ok := in.(*ssa.Select); ok && !sel.Blocking && ctxBody.Dominates(sel.Block()) && instrDominates(sel, r) {
-					// the same result channel the collecting select receives from (the variable's cell is loaded again)
-					for _, st := range sel.States {
-						if st.Dir != types.RecvOnly {
+				sel, ok := in.(*ssa.Select)
+				if !ok || sel.Blocking || !ctxBody.Dominates(sel.Block()) {
+					return
+				}
+				cases, _, okd := decodeSelect(sel)
+				if !okd {
+					return
+				}
+				for _, cs := range cases {
+					if cs.State.Dir != types.RecvOnly || cs.Body == nil {
+						continue
+					}
+					// from the polled receive the ordinary accepting return is reachable without going through the
+					// collecting select again
+					for _, r := range returnsOf(f) {
+						rv := returnedValues(r)
+						if !isNilConst(rv[1]) || isNilConst(rv[0]) {
 							continue
 						}
-						for _, cst := range callerSel.States {
-							if cst.Dir == types.RecvOnly && !isCtxDone(cst.Chan) && (cst.Chan == st.Chan || sameLoadedPlace(cst.Chan, st.Chan)) {
-								polled = true
-							}
+						if _, reach := reachFromBlock(cs.Body, func(x ssa.Instruction) bool { return x == ssa.Instruction(r) }, func(x ssa.Instruction) bool { return x == ssa.Instruction(callerSel) }); reach {
+							feeds = true
 						}
 					}
 				}
 			})
-			onlyGood := true
-			var walkConds func(cond ssa.Value, truth bool, depth int)
-			walkConds = func(cond ssa.Value, truth bool, depth int) {
-				if ph, isPhi := cond.(*ssa.Phi); isPhi && truth && depth < 3 {
-					for i, e := range ph.Edges {
-						if b, isC := constBool(e); isC {
-							if b {
-								if pif, ok := terminator(ph.Block().Preds[i]).(*ssa.If); ok {
-									walkConds(pif.Cond, ph.Block().Preds[i].Succs[0] == ph.Block(), depth+1)
-								} else {
-									onlyGood = false
-								}
-							}
-							continue
-						}
-						walkConds(e, true, depth+1)
-					}
-					return
-				}
-				cm, ok := (guard{Cond: cond, Truth: truth}).asCmp()
-				if !ok || cm.Op != token.EQL {
-					onlyGood = false
-					return
-				}
-				k, isF := loadedField(cm.X)
-				n, isC := constInt(cm.Y)
-				if !isF || !strings.HasSuffix(k, "dns.MsgHdr.Rcode") || !isC || (n != 0 && n != 3) {
-					onlyGood = false
-					return
-				}
-				if base := fieldBase(cm.X.(*ssa.UnOp).X); base != m && !sameLoadedPlace(base, m) {
-					onlyGood = false
-				}
-			}
-			for _, pr := range r.Block().Preds {
-				if iff, ok := terminator(pr).(*ssa.If); ok {
-					walkConds(iff.Cond, pr.Succs[0] == r.Block(), 0)
-				} else {
-					onlyGood = false
-				}
-			}
-			c.check(polled && errNil && onlyGood, "accept-rule:after-ctx", instrPos(r), "after the context ended only an already arrived NOERROR / NXDOMAIN reply is returned",
-				"the context case returns a reply that was not polled from the result channel, came with an error, or is not a NOERROR / NXDOMAIN answer")
+			c.check(feeds, "ctx-poll-feeds-ordinary-rule", instrPos(callerSel), "a result polled in the ctx.Done() case reaches the ordinary acceptance rule",
+				"a result polled after the context ended does not reach the ordinary acceptance rule: the last upstream's reply that arrived in time is dropped (D54)")
 		}
 		if accept == nil {
 			c.anchorMissing("accepting return in Forward.exchange")
